@@ -126,6 +126,13 @@ class Renderer:
             head += (' ' if k == 0 else ', ')
             marks.append((pi, len(head), 'def'))
             head += vname(self.p[pi]['n'])
+        if nxt < c and self.p[nxt]['t'] == 'huse' and self.sc[nxt] == o:
+            # a default value in the lambda header: evaluated in the ENCLOSING scope when the lambda is created --
+            # the lambda's own parameters, also those in front of it, are not visible there
+            head += (', ' if ps else ' ') + 'p_='
+            marks.append((nxt, len(head), 'use'))
+            head += vname(self.p[nxt]['n'])
+            nxt += 1
         head += ': '
         bt, bm = self.tuple_of(self.expr_items(nxt, c - 1))
         marks += [(i, col + len(head), kd) for (i, col, kd) in bm]
